@@ -6,6 +6,8 @@ use std::ops::Range;
 use vstd::std_specs::cmp::PartialOrdSpec;
 verus! {
 
+global size_of usize == 8;
+
 //@include preamble/state_types.rs
 //@include spec/machine.rs
 //@include spec/state_specs.rs
@@ -49,7 +51,43 @@ impl State {
 //@use state.fns State::code_origin
 //@use state.fns State::is_running
 //@use state.fns State::reverse_changes
+//@use state.fns State::dict_entry
+//@use state.fns State::load_value_opcode
+//@use state.fns State::backpatch
+//@use state.fns State::fetch_and_run
 }
+
+// R4: a native word called through its function pointer.  ASSUMED native-word contract: a native
+// word keeps the stack bases and the ip, and whatever it changes is recorded so that it can be undone.
+#[verifier::external_body]
+fn call_native(x: XfnPtr, xs: &mut State) -> (r: Xresult)
+    requires old(xs).inv()
+    ensures
+        final(xs).inv(),
+        final(xs).ctx.ip == old(xs).ctx.ip,
+        final(xs).code@.len() == old(xs).code@.len(),
+        final(xs).insn_meter == old(xs).insn_meter,
+        exists|n: nat| #[trigger] rev_w(old(xs), final(xs), n) && rev_ext(old(xs), final(xs), n),
+{ unimplemented!() }
+
+//@use state.fns ::do_init
+
+impl Cell {
+//@use cell.fns Cell::cond_true assumed
+//@use cell.fns Cell::to_isize assumed
+}
+impl PartialEq for Cell { #[verifier::external_body] fn eq(&self, other: &Self) -> bool { unimplemented!() } }
+impl From<Xstr> for Cell { #[verifier::external_body] fn from(x: Xstr) -> (r: Cell) { unimplemented!() } }
+impl From<f64> for Cell { #[verifier::external_body] fn from(x: f64) -> (r: Cell) { unimplemented!() } }
+impl From<i64> for Cell { #[verifier::external_body] fn from(x: i64) -> (r: Cell) { unimplemented!() } }
+impl core::ops::Deref for Xstr { type Target = str; #[verifier::external_body] fn deref(&self) -> &str { unimplemented!() } }
+
+impl RelativeJump {
+//@use cell.fns RelativeJump::calculate
+//@use cell.fns RelativeJump::from_to
+//@use cell.fns RelativeJump::uninit
+}
+
 
 } // verus!
 fn main() {}
